@@ -245,7 +245,9 @@ def _c_bound(c):
         return None
     left, op, right = m.group(1).strip(), m.group(2), m.group(3).strip()
 
-    def const_of(t):
+    used = set()
+
+    def atom_of(t):
         t = t.strip("() ")
         if re.fullmatch(r"-?\s*(0[xX][0-9a-fA-F]+|\d+)[uUlL]*", t):
             return int(re.sub(r"[uUlL\s]+", "", t), 0)
@@ -254,7 +256,27 @@ def _c_bound(c):
             for mapped, rawn in (c.get("raw") or {}).items():
                 if rawn == t:
                     v = c.get("macro_values", {}).get(mapped)
-        return v if isinstance(v, int) else None
+        if isinstance(v, int):
+            used.add(t)
+            return v
+        return None
+
+    def const_of(t):
+        # a literal, a macro, or a sum / difference of those (`MAX_BITS + MAX_DIST_EXTRA_BITS`)
+        t = t.strip()
+        while t.startswith("(") and t.endswith(")"):
+            t = t[1:-1].strip()
+        parts = re.split(r"\s([+-])\s", t)
+        total, sign = 0, 1
+        for i, p_ in enumerate(parts):
+            if i % 2 == 1:
+                sign = 1 if p_ == "+" else -1
+                continue
+            v = atom_of(p_)
+            if v is None:
+                return None
+            total += sign * v
+        return total
     lk, rk = const_of(left), const_of(right)
     if (lk is None) == (rk is None):
         return None
@@ -263,7 +285,7 @@ def _c_bound(c):
     else:
         k = lk
         op = {"<": ">", "<=": ">=", ">": "<", ">=": "<="}[op]
-    return ("A", k) if op in (">=", "<") else ("B", k)
+    return ("A" if op in (">=", "<") else "B", k, frozenset(used))
 
 
 def matches(c, s, toks):
@@ -291,11 +313,12 @@ def matches(c, s, toks):
     macro_vals = set(c.get("macro_values", {}).values())
     by_value = False
     snames = None
+    bound_names = set()
     # an ordering against one constant (`x >= 3`, `MAX < y`): the tolerance of one is exactly the change of strictness,
     # `x >= k` is `k <= x`, `k-1 < x`, or the negation of `x < k` / `x <= k-1` - not `x >= k+1`
     bound = _c_bound(c)
     if bound is not None and s.rel in ("Le", "Lt") and (s.lo_consts or s.hi_consts) and not (s.lo_consts and s.hi_consts):
-        kind, k = bound
+        kind, k, folded = bound
         if kind == "A":     # x >= k  /  x < k
             okset = {("Le", "lo", k), ("Lt", "lo", k - 1), ("Lt", "hi", k), ("Le", "hi", k - 1)}
         else:               # x > k  /  x <= k
@@ -303,9 +326,14 @@ def matches(c, s, toks):
         have = {(s.rel, "lo", v) for v in s.lo_consts if isinstance(v, int)} | {(s.rel, "hi", v) for v in s.hi_consts if isinstance(v, int)}
         if have and not (have & okset):
             return False
+        if have & okset:
+            # the bound is there, exactly: the macros it was computed from may have been folded into one constant
+            bound_names = {x for x in folded}
     for n in c["names"]:
         nl = n.lower()
         if nl in own or n in s.names:
+            continue
+        if n in bound_names or c.get("raw", {}).get(n) in bound_names:
             continue
         if snames is None:
             snames = set(structural(s)["names"])
@@ -641,11 +669,13 @@ def check(ck, P, rule, only=None):
             st += rust_atoms(f)
         cname = key.split(":")[1]
         cond_ok_consts = set()
+        cond_ok_folded = set()
         for c in pins:
             n += 1
             m = find(c, st)
             if m is not None:
                 cond_ok_consts.update(c["consts"])
+                cond_ok_folded.update(v_ for v_ in c.get("macro_values", {}).values() if isinstance(v_, int))
             ck.decide(m is not None, rule, "%s:%s" % (cname, c["text"]), "counterpart present",
                       "zlib-ng's %s decides with `%s`; no branch or boolean value of %s tests %s any more - the port has lost or changed "
                       "a condition of its reference" % (cname, c["text"], ", ".join(f.path.replace(Z, "") for f in fns),
@@ -659,14 +689,36 @@ def check(ck, P, rule, only=None):
         for cf in table.get("writes", {}).get(key, []):
             n += 1
             alts = ALIAS.get(cf.lower(), {cf.lower()}) | {cf.lower()}
-            ck.decide(bool(alts & wr), rule, "%s:stores:%s" % (cname, cf), "still stored",
+            stored = bool(alts & wr)
+            if not stored:
+                # the store moved into a function that accompanies this one in every caller: the same store
+                from . import flow as _flow
+                W_ = getattr(P, "_cp_writes", None)
+                if W_ is None:
+                    W_ = P._cp_writes = _flow.Writes(P)
+                stored = any(refwrites._companions_write(P, W_, f, a_) for f in fns for a_ in alts)
+            ck.decide(stored, rule, "%s:stores:%s" % (cname, cf), "still stored",
                       "zlib-ng's %s assigns `%s`; %s (with its helpers) no longer stores it: the port has lost a state update of its reference"
                       % (cname, cf, ", ".join(f.path.replace(Z, "") for f in fns)), where(fns[0]))
         cst = rust_const_stores(allf)
         for cf, v in table.get("const_stores", {}).get(key, []):
             n += 1
             alts = ALIAS.get(cf.lower(), {cf.lower()}) | {cf.lower()}
-            ck.decide(any((a_, v) in cst for a_ in alts), rule, "%s:stores:%s=%d" % (cname, cf, v), "still stored",
+            cstored = any((a_, v) in cst for a_ in alts)
+            if not cstored:
+                from . import flow as _flow
+                W_ = getattr(P, "_cp_writes", None)
+                if W_ is None:
+                    W_ = P._cp_writes = _flow.Writes(P)
+                for f in fns:
+                    callers = [P.fns[c_] for c_ in P.callers_of(f.path) if c_ in P.fns and c_ != f.path]
+                    comp = []
+                    for cx in callers:
+                        comp += [P.fns[cp] for cp in cx.callee_paths() if cp in P.fns and cp != f.path]
+                    if callers and any((a_, v) in rust_const_stores(with_helpers(P, [k_])) for k_ in comp for a_ in alts) and \
+                            any(refwrites._companions_write(P, W_, f, a_) for a_ in alts):
+                        cstored = True
+            ck.decide(cstored, rule, "%s:stores:%s=%d" % (cname, cf, v), "still stored",
                       "zlib-ng's %s sets `%s = %d`; %s (with its helpers) no longer stores that value in it: a flag or counter of the "
                       "reference is no longer (re)set" % (cname, cf, v, ", ".join(f.path.replace(Z, "") for f in fns)), where(fns[0]))
         rops = rust_opassigns(allf)
@@ -704,7 +756,8 @@ def check(ck, P, rule, only=None):
             n += 1
             # a comparison re-spelled by one (`>= 258` as `> 257`) keeps its condition pin; the literal then counts as kept
             moved = v in cond_ok_consts and ((v - 1) in lits or (v + 1) in lits)
-            ck.decide(v in lits or moved, rule, "%s:literal:%d" % (cname, v), "constant still used",
+            # a macro of a condition that still holds may have been folded into a named constant with other macros
+            ck.decide(v in lits or moved or v in cond_ok_folded, rule, "%s:literal:%d" % (cname, v), "constant still used",
                       "zlib-ng's %s uses the constant %d (0x%x); %s no longer does - a size, threshold or mask of the reference has changed"
                       % (cname, v, v, ", ".join(f.path.replace(Z, "") for f in fns)), where(fns[0]))
         have = rust_callee_names(allf)
